@@ -9,7 +9,7 @@ Extraction Language OCaml.
 Extraction "model.ml" fstep fcheck finit calc_partial_start calc_target_top_level
   trstep trinit model_canon canonical store_canon reads_of ref_reads rnode_eqb t_coll_get
   t_dirty_segments t_dirty_ops full_shape_ok fnode_full_shape_ok barrier_ok run_spec_incl_naive cstep cinit tref_now rt_get t_cur_snapshot tobs_id fm0 zero_gauges_ok zero_gauges_existence_only probe_all open_store persist_effects
-  scan_footer_bytes scan_footer_repaired_bytes roundtrip_check Codec.encode Codec.decode
+  scan_footer_bytes scan_footer_repaired_bytes scan_footer_json_bytes roundtrip_check Codec.encode Codec.decode
   pageAlignCeil pageAlignFloor pageOffset load_segment persist_segment persist_segment_loc mutate_guard
   h_append h_compact_partial h_compact_full h_revert h_previous h_walk llv sget sort_seg run_round
   th_round th_previous th_walk th_revert tcurrent tcur_bs ref_tree fn_any_segs
